@@ -10,7 +10,11 @@
    Observation  [cstat cret] ++ for every entry i [wstat_i entries_i ctxc_i]
             cstat   0 not called, 1 at a HoldLock entry gate, 6 at a HoldLock exit gate, 2 blocked (in the select, or
                     inside the single function), 5 returned, 9 panicked (never produced by the model)
-            cret    0 not returned, else the outcome code of the call's result
+            cret    0 not returned, else the outcome code of the call's result; the harness reports errors that are neither
+                    context.Canceled nor one of the functions' error values as 96 (context.DeadlineExceeded), 97 (the cause of
+                    the caller's context) or 99 (anything else): never produced by the model, judged by clause 3.
+   Config   [k] (optional, ignored by the model): the flavour of the caller's context (harness/hctx: plain, ending like a
+            deadline, cancelled with a cause); CallConcurrently returns the literal context.Canceled for all of them
             wstat   0 nil entry / not entered yet, 3 inside the function, 1 function returned, at the gate of its
                     record section, 4 finished (recorded; or returned in the one-function path)
             entries how often function i was entered; ctxc 1 if it was entered and the context it got is cancelled *)
